@@ -70,6 +70,7 @@ def run(v, tier, seed, replay):
     if need - kinds:
         raise Infra("vacuity: event kinds never recorded: %s" % sorted(need - kinds))
     v.cov["protocol_events_validated"] = nev
+    solver.long_evolve(v, exe)
     # ---- lifetimes (module SolverSeq): every sequence of construct / re-initialise to another size / toggle / Evolve / move
     cfq = os.path.join(vlib.BUILD, "C10_solverseq.cfg")
     with open(cfq, "w") as f:
